@@ -16,7 +16,15 @@ def main(argv=None):
     args = ap.parse_args(argv)
     if args.jobs:
         os.environ["VERIF_JOBS"] = str(args.jobs)
+    verif = os.path.dirname(os.path.dirname(os.path.abspath(__file__)))
+    if verif not in sys.path:
+        sys.path.insert(0, verif)
+    if args.replay:
+        args.replay = os.path.abspath(args.replay)
     from . import boot  # noqa: F401  (must come before breezy)
+    # breezy code occasionally drops files into the current directory (e.g. ",,bogus-inv"):
+    # run from a scratch directory, never from /verif
+    os.chdir(boot.scratch("cwd"))
     from .evidence import Ctx, HarnessError, finish
     pid = args.pid.upper()
     mod = importlib.import_module("checks.%s" % pid.lower())
